@@ -115,22 +115,14 @@ var ErrNotQuiescent = errors.New("simnet: endpoints did not come to rest")
 // WaitQuiescent blocks until all endpoints are at rest.
 func (n *Net) WaitQuiescent() error {
 	deadline := time.Now().Add(60 * time.Second)
-	stop := make(chan struct{})
-	defer close(stop)
-	go func() {
-		t := time.NewTicker(200 * time.Millisecond)
-		defer t.Stop()
-		for {
-			select {
-			case <-stop:
-				return
-			case <-t.C:
-				n.mu.Lock()
-				n.cond.Broadcast()
-				n.mu.Unlock()
-			}
-		}
-	}()
+	// every state change broadcasts; the timer only wakes the waiter up for the safety deadline
+	// (no helper goroutine: checks count goroutines)
+	t := time.AfterFunc(61*time.Second, func() {
+		n.mu.Lock()
+		n.cond.Broadcast()
+		n.mu.Unlock()
+	})
+	defer t.Stop()
 	n.mu.Lock()
 	defer n.mu.Unlock()
 	for {
